@@ -26,7 +26,9 @@ template <typename TScalar>
 py::object pfaffian_np(
     py::array_t<TScalar, py::array::c_style> matrix)
 {
-    Matrix<TScalar> native_matrix = numpy_to_matrix(matrix);
+    // NOTE: The Parlett-Reid elimination works in place, hence it is performed on a copy
+    // in order to leave the input array intact.
+    Matrix<TScalar> native_matrix = numpy_to_matrix(matrix).copy();
 
     TScalar result = pfaffian_cpp(native_matrix);
 
